@@ -515,6 +515,10 @@ func chComputeAfter(before, text string) (chHashes, error) {
 	if err := m.ReloadFromRaw([]byte(before)); err != nil {
 		return chHashes{}, err
 	}
+	// ... and was told a stop-scrape reason meanwhile (kvass' own extra configuration: no part of the configuration content)
+	if len(text)%2 == 0 {
+		_ = m.UpdateExtraConfig(prom.ExtraConfig{StopScrapeReason: "maintenance"})
+	}
 	if err := m.ReloadFromRaw([]byte(text)); err != nil {
 		return chHashes{}, err
 	}
